@@ -81,6 +81,30 @@ def zipped_selections(rnd, tier):
     return progs
 
 
+def stringform_applies(rnd, tier):
+    """C03: every dimension of every template through the string forms
+    reduce_dim ('dim,function') and convolve_dim ('dim,mode,weights')."""
+    dims = {'T1': ['t', 'y', 'x'], 'T2': ['t', 'z', 'x'],
+            'T3': ['y', 't', 'x'], 'T4': ['t', 'z', 'y', 'x'],
+            'T7': ['t', 'z', 'y', 'x']}
+    progs = []
+    for t in sorted(dims):
+        for d in dims[t]:
+            for fn in ('sum', 'min', 'max', 'mean'):
+                progs.append({'templates': [t], 'steps': [{
+                    'act': 'apply', 'src': 1, 'others': [], 'args': {
+                        'funcs': [{'d': d, 'kind': 'reducer', 'f': fn}],
+                        'via': 'reduce_dim'}}]})
+            for fn in sorted(cd.CONVDEFS):
+                progs.append({'templates': [t], 'steps': [{
+                    'act': 'apply', 'src': 1, 'others': [], 'args': {
+                        'funcs': [{'d': d, 'kind': 'callable', 'f': fn}],
+                        'via': 'convolve_dim'}}]})
+    if tier == 'quick':
+        progs = rnd.sample(progs, min(len(progs), 70))
+    return progs
+
+
 def multidim_applies(rnd, tier):
     """C03: every pair / triple of dimensions of every template reduced in ONE
     call - with one reducer name for all of them, and with min/max
@@ -144,6 +168,7 @@ def run(prop, tier, extra=None):
         progs += hetero_stacks(rnd, tier)
     if prop == 'C03':
         progs += multidim_applies(rnd, tier)
+        progs += stringform_applies(rnd, tier)
     if prop == 'C02':
         progs += zipped_selections(rnd, tier)
     # spec -> code: every program the bounded model emits is replayed
@@ -153,6 +178,11 @@ def run(prop, tier, extra=None):
     # code -> spec on the repository's own tests (DESIGN.md 4.5): the calls
     # its tests make, validated for this property's clauses
     suite.run_suite(out, tier, c['enforce'], c['prop'], recorded=rec_wait())
+    # the command line pipeline: order of kinds (C01: completes, well-formed;
+    # C02 / C03 / C06: values of lines made of their own kinds)
+    if prop in ('C01', 'C02', 'C03', 'C06'):
+        import pipeline
+        pipeline.run_pipeline(out, tier, prop, rnd)
     out.cov['rule'] = ('seeded random programs over templates T1-T5 (depth %s,'
                        ' focus %s); a case is non-trivial when at least one '
                        'call returned a new file; distinct = template + '
